@@ -267,6 +267,22 @@ func (e *Engine) evalBinary(st *State, x *ast.BinaryExpr) (Val, error) {
 		if isString(a.Ty) {
 			return Val{smt.App(smt.V, "str_cat", a.T, b.T), ty}, nil
 		}
+		if isFloat(a.Ty) && a.T.Sort == smt.V && b.T.Sort == smt.V {
+			// IEEE 754 addition (trusted): x + 0 is a canonical representative of x's
+			// numeric value: (+0) + 0 and (-0) + 0 are both +0, every other non-NaN
+			// value is unchanged
+			if !e.Decls.HasFun("flt_add") {
+				e.Decls.Fun("flt_add", []smt.Sort{smt.V, smt.V}, smt.V)
+				z := e.Decls.Const("fltlit!0", smt.V)
+				x, y := smt.T{S: "x", Sort: smt.V}, smt.T{S: "y", Sort: smt.V}
+				ax := smt.App(smt.V, "flt_add", x, z)
+				ay := smt.App(smt.V, "flt_add", y, z)
+				e.Axioms = append(e.Axioms, smt.Forall([]smt.Bound{{Name: "x", Sort: smt.V}, {Name: "y", Sort: smt.V}},
+					smt.Implies(smt.App(smt.Bool, "flt_eq", x, y), smt.Eq(ax, ay)), ax, ay))
+				e.Axioms = append(e.Axioms, smt.Forall([]smt.Bound{{Name: "x", Sort: smt.V}}, smt.App(smt.Bool, "flt_eq", ax, x), ax))
+			}
+			return Val{smt.App(smt.V, "flt_add", a.T, b.T), ty}, nil
+		}
 	case token.SUB:
 		if a.T.Sort == smt.Int {
 			return Val{smt.Sub(a.T, b.T), ty}, nil
